@@ -12,10 +12,10 @@ import itertools
 import json
 
 from hypothesis import strategies as st
-from hypothesis.stateful import RuleBasedStateMachine, rule, initialize
 
 from harness.core import HarnessError
-from harness.hyp import drive, drive_machine
+from harness.hyp import drive
+from harness.fork import in_child
 from gens import keys as gk, jweplan
 from gens.jose import jkey, ALL_JWS
 from ref import jws as rjws, jwe as rjwe, b64 as rb, keys as rk, selftest
@@ -308,77 +308,117 @@ def matrix(part):
 
 
 # ------------------------------------------------------------------ part B: histories
-def make_machine(ctx):
-    class AllowListMachine(RuleBasedStateMachine):
-        def __init__(self):
-            super().__init__()
-            from joserfc import jws, jwe, rfc7797
-            self.regs = []
-            self.lists_seen = set()
-            self.steps = 0
+class HistoryState:
+    """Long-lived registries created with different allow-lists; steps are JSON descriptors so that a history replays verbatim."""
 
-        @initialize(lists=st.lists(st.tuples(st.sampled_from(["jws", "jws7797", "jwe"]),
-                                             st.one_of(st.none(), st.lists(st.sampled_from(JWS_NAMES + jweplan.ALL_NAMES), min_size=1, max_size=5))),
-                                   min_size=2, max_size=5))
-        def setup(self, lists):
-            from joserfc import jws, jwe, rfc7797
-            for kind, L in lists:
+    def __init__(self, lists):
+        from joserfc import jws, jwe, rfc7797
+        self.regs = []
+        for kind, L in lists:
+            if kind == "jws":
+                self.regs.append(("jws", L, jws.JWSRegistry(algorithms=L)))
+            elif kind == "jws7797":
+                self.regs.append(("jws", L, rfc7797.JWSRegistry(algorithms=L)))
+            else:
+                self.regs.append(("jwe", L, jwe.JWERegistry(algorithms=L)))
+
+    def step(self, st_):
+        """Execute one step. Returns None (not judged) or (cell, (verdict, finding))."""
+        from joserfc import jws, jwe
+        k = K()
+        r = st_["rule"]
+        if r == "both":
+            if not self.regs:
+                return None
+            kind, RL, obj = self.regs[st_["which"] % len(self.regs)]
+            L = st_["L"]
+            try:
                 if kind == "jws":
-                    self.regs.append(("jws", L, jws.JWSRegistry(algorithms=L)))
-                elif kind == "jws7797":
-                    self.regs.append(("jws", L, rfc7797.JWSRegistry(algorithms=L)))
+                    if st_["op"] == "produce":
+                        jws.serialize_compact({"alg": "HS256"}, b"x", k["obj"]["oct32"], algorithms=L, registry=obj)
+                    else:
+                        jws.deserialize_compact(rjws.make_compact(b'{"alg":"HS256"}', b"x", "HS256", k["ref"]["oct32"]), k["obj"]["oct32"], algorithms=L, registry=obj)
+                elif st_["op"] == "produce":
+                    jwe.encrypt_compact({"alg": "A128KW", "enc": "A128GCM"}, b"x", k["obj"]["oct16"], algorithms=L, registry=obj)
                 else:
-                    self.regs.append(("jwe", L, jwe.JWERegistry(algorithms=L)))
-
-        def _account(self, cell, res):
-            verdict, finding = res
-            self.steps += 1
-            ctx.count("machine-steps")
-            self.lists_seen.add(json.dumps(cell["L"]))
-            ctx.case(("hist", self.steps > 1, cell["kind"], cell["op"], cell["entry"], json.dumps(cell["names"]), cell["style"], json.dumps(cell["L"])),
-                     nontrivial=len(self.lists_seen) >= 2, cls=["history-step", verdict])
-            if finding:
-                ctx.finding(finding[0].replace("C05:", "C05:history:"), finding[1] + f" (after {self.steps - 1} earlier calls)", finding[2])
-
-        @rule(alg=st.sampled_from(JWS_NAMES), op=st.sampled_from(["sign", "verify"]), entry=st.sampled_from(JWS_ENTRIES),
-              how=st.integers(0, 9), L=st.lists(st.sampled_from(JWS_NAMES), min_size=1, max_size=4))
-        def jws_op(self, alg, op, entry, how, L):
-            regs = [r for r in self.regs if r[0] == "jws"]
+                    jwe.decrypt_compact("e30.AA.AA.AA.AA", k["obj"]["oct16"], algorithms=L, registry=obj)
+            except Exception:
+                pass
+            return None
+        how, L, op, entry = st_["how"], st_["L"], st_["op"], st_["entry"]
+        if r == "jws":
+            alg = st_["alg"]
+            regs = [x for x in self.regs if x[0] == "jws"]
+            names = {"alg": alg}
             if how < 4 and regs:
                 _, RL, obj = regs[how % len(regs)]
                 if entry == "rfc7797" and type(obj).__module__.endswith("rfc7515.registry"):
                     entry = "compact"
-                cell = {"kind": "jws", "op": op, "entry": entry, "names": {"alg": alg}, "style": "registry", "L": RL}
+                cell = {"kind": "jws", "op": op, "entry": entry, "names": names, "style": "registry", "L": RL}
                 out = jws_call(op, entry, alg, "registry", RL, obj)
             elif how < 7:
-                cell = {"kind": "jws", "op": op, "entry": entry, "names": {"alg": alg}, "style": "algorithms", "L": L}
+                cell = {"kind": "jws", "op": op, "entry": entry, "names": names, "style": "algorithms", "L": L}
                 out = jws_call(op, entry, alg, "algorithms", L)
             else:
-                cell = {"kind": "jws", "op": op, "entry": entry, "names": {"alg": alg}, "style": "default", "L": None}
+                cell = {"kind": "jws", "op": op, "entry": entry, "names": names, "style": "default", "L": None}
                 out = jws_call(op, entry, alg, "default", None)
-            self._account(cell, judge("jws", op, entry, {"alg": alg}, None, cell["style"], cell["L"], out))
+            return cell, judge("jws", op, entry, names, None, cell["style"], cell["L"], out)
+        alg, enc = st_["alg"], st_["enc"]
+        if alg.startswith("ECDH-1PU+") and enc not in jweplan.CBC:
+            enc = "A128CBC-HS256"
+        names = {"alg": alg, "enc": enc, "zip": None}
+        regs = [x for x in self.regs if x[0] == "jwe"]
+        if how < 4 and regs:
+            _, RL, obj = regs[how % len(regs)]
+            cell = {"kind": "jwe", "op": op, "entry": entry, "names": names, "style": "registry", "L": RL}
+            out = jwe_call(op, entry, alg, enc, None, "registry", RL, obj)
+        elif how < 7:
+            cell = {"kind": "jwe", "op": op, "entry": entry, "names": names, "style": "algorithms", "L": L}
+            out = jwe_call(op, entry, alg, enc, None, "algorithms", L)
+        else:
+            cell = {"kind": "jwe", "op": op, "entry": entry, "names": names, "style": "default", "L": None}
+            out = jwe_call(op, entry, alg, enc, None, "default", None)
+        if out[0] == "skip":
+            return None
+        return cell, judge("jwe", op, entry, names, None, cell["style"], cell["L"], out)
 
-        @rule(alg=st.sampled_from([a for a in jweplan.ALGS if not a.startswith(("PBES2", "RSA1"))]), enc=st.sampled_from(jweplan.ENCS),
-              op=st.sampled_from(["encrypt", "decrypt"]), entry=st.sampled_from(["compact", "flattened", "general"]), how=st.integers(0, 9),
-              L=st.lists(st.sampled_from(jweplan.ALL_NAMES), min_size=1, max_size=5))
-        def jwe_op(self, alg, enc, op, entry, how, L):
-            if alg.startswith("ECDH-1PU+") and enc not in jweplan.CBC:
-                enc = "A128CBC-HS256"
-            names = {"alg": alg, "enc": enc, "zip": None}
-            regs = [r for r in self.regs if r[0] == "jwe"]
-            if how < 4 and regs:
-                _, RL, obj = regs[how % len(regs)]
-                cell = {"kind": "jwe", "op": op, "entry": entry, "names": names, "style": "registry", "L": RL}
-                out = jwe_call(op, entry, alg, enc, None, "registry", RL, obj)
-            elif how < 7:
-                cell = {"kind": "jwe", "op": op, "entry": entry, "names": names, "style": "algorithms", "L": L}
-                out = jwe_call(op, entry, alg, enc, None, "algorithms", L)
-            else:
-                cell = {"kind": "jwe", "op": op, "entry": entry, "names": names, "style": "default", "L": None}
-                out = jwe_call(op, entry, alg, enc, None, "default", None)
-            if out[0] != "skip":
-                self._account(cell, judge("jwe", op, entry, names, None, cell["style"], cell["L"], out))
-    return AllowListMachine
+
+jws_step = st.fixed_dictionaries({"rule": st.just("jws"), "alg": st.sampled_from(JWS_NAMES), "op": st.sampled_from(["sign", "verify"]),
+                                  "entry": st.sampled_from(JWS_ENTRIES), "how": st.integers(0, 9), "L": st.lists(st.sampled_from(JWS_NAMES), min_size=1, max_size=4)})
+jwe_step = st.fixed_dictionaries({"rule": st.just("jwe"), "alg": st.sampled_from([a for a in jweplan.ALGS if not a.startswith(("PBES2", "RSA1"))]),
+                                  "enc": st.sampled_from(jweplan.ENCS), "op": st.sampled_from(["encrypt", "decrypt"]),
+                                  "entry": st.sampled_from(["compact", "flattened", "general"]), "how": st.integers(0, 9),
+                                  "L": st.lists(st.sampled_from(jweplan.ALL_NAMES), min_size=1, max_size=5)})
+# algorithms= together with registry=: the call itself is not judged (the statement is silent on the conflict) but it must not change
+# what the long-lived registry object allows afterwards
+both_step = st.fixed_dictionaries({"rule": st.just("both"), "which": st.integers(0, 9), "op": st.sampled_from(["produce", "consume"]),
+                                   "L": st.lists(st.sampled_from(JWS_NAMES + jweplan.ALL_NAMES), min_size=1, max_size=4)})
+histories = st.fixed_dictionaries({
+    "lists": st.lists(st.tuples(st.sampled_from(["jws", "jws7797", "jwe"]),
+                                st.one_of(st.none(), st.lists(st.sampled_from(JWS_NAMES + jweplan.ALL_NAMES), min_size=1, max_size=5))), min_size=2, max_size=5),
+    "steps": st.lists(st.one_of(jws_step, jws_step, jwe_step, jwe_step, both_step), min_size=2, max_size=30)})
+
+
+def run_history(h):
+    """Executes a history; returns [findings {key: [text, record]}, per-step info list]."""
+    state = HistoryState([tuple(x) for x in h["lists"]])
+    f = {}
+    info = []
+    for n, st_ in enumerate(h["steps"]):
+        res = state.step(st_)
+        if res is None:
+            info.append(None)
+            continue
+        cell, (verdict, finding) = res
+        info.append([verdict, cell["kind"], cell["op"], cell["entry"], json.dumps(cell["names"]), cell["style"], json.dumps(cell["L"])])
+        if finding:
+            fk, text, _ = finding
+            f.setdefault(fk.replace("C05:", "C05:history:"), [text + f" (after {n} earlier calls on shared registries)", {"history": {"lists": h["lists"], "steps": h["steps"][:n + 1]}}])
+    return [f, info]
+
+
+def replay_history(h) -> dict:
+    return {k: v[0] for k, v in run_history(h)[0].items()}
 
 
 def shards(tier):
@@ -396,7 +436,7 @@ def run_shard(ctx, spec):
         for j, cell in enumerate(matrix(spec["which"])):
             if j % spec["n"] != spec["i"]:
                 continue
-            verdict, finding = run_cell(cell)
+            verdict, finding = in_child(lambda: run_cell(cell))     # pristine process state per cell: the record is self-contained
             if verdict == "skip":
                 continue
             if verdict == "dont_care":
@@ -408,12 +448,27 @@ def run_shard(ctx, spec):
             if finding:
                 ctx.finding(finding[0], finding[1], finding[2])
     else:
-        drive_machine(ctx, "history", make_machine(ctx), 150 if ctx.tier == "quick" else 1500, 30 if ctx.tier == "quick" else 50)
+        def body(h):
+            f, info = in_child(lambda: run_history(h))
+            lists_seen = set()
+            for n, it in enumerate(info):
+                ctx.count("machine-steps")
+                if it is None:
+                    ctx.count("both-arguments-steps")
+                    continue
+                lists_seen.add(it[6])
+                ctx.case(("hist", n > 0, tuple(it[1:])), nontrivial=len(lists_seen) >= 2, cls=["history-step", it[0]],
+                         sample={"lists": h["lists"], "steps": h["steps"][:4]} if n == 0 else None)
+            for k, (text, rec) in f.items():
+                ctx.finding(k, text, rec)
+        drive(ctx, "history", histories, body, 220 if ctx.tier == "quick" else 2500)
 
 
 def replay(rec) -> dict:
     from gens.jose import setup_joserfc
     setup_joserfc()
     K()
+    if "history" in rec:
+        return replay_history(rec["history"])
     verdict, finding = run_cell(rec)
     return {finding[0]: finding[1]} if finding else {}
